@@ -89,12 +89,12 @@ func main() {
 			if ev.Tracing() {
 				tr = ev.Trace
 			}
-			if msg, rp := avlh.Churn(ev.Pick(r, 60000, 600000), 97, dups, false, tr); msg != "" {
+			if msg, rp := avlh.Churn(ev.Pick(r, 140000, 600000), 97, dups, false, tr); msg != "" {
 				r.Report(ev.Violation{Sig: "family|churn", Msg: "(" + kind + " tree) " + msg, Replay: rp})
 			}
 		}
 	}
-	r.Set("churn_family_operations", 2*ev.Pick(r, 60000, 600000))
+	r.Set("churn_family_operations", 2*ev.Pick(r, 140000, 600000))
 	r.Set("states", states)
 	r.Set("transitions", trans)
 	r.Set("traces_validated_against_impl", trans)
